@@ -1,0 +1,19 @@
+//go:build verif
+
+// Machine-checked contracts (read by /verif/bin/fsv; comment-only, guarded by the verif tag).
+
+package common
+
+//@ func (*PolicyResult).WithDone
+//@   requires er != nil
+//@   ensures [C01.withdone] fresh(result) && result.Result == er.Result && result.Error == er.Error && result.Done == done && result.Success == success && result.SuccessAll == (success && er.SuccessAll)
+//@   modifies nothing
+
+//@ func (*PolicyResult).WithFailure
+//@   requires er != nil
+//@   ensures [C01.withfailure] fresh(result) && result.Result == er.Result && result.Error == er.Error && result.Done == er.Done && !result.Success && !result.SuccessAll
+//@   modifies nothing
+
+// A PolicyResult is never written after it has been constructed (the only stores in the module are the
+// ones above, on the fresh copy): its fields are frozen; every store site is checked to target a private object.
+//@ frozen PolicyResult.Result, PolicyResult.Error, PolicyResult.Done, PolicyResult.Success, PolicyResult.SuccessAll
